@@ -134,6 +134,8 @@ def clip_worlds(tier: str, seed: int) -> list[dict]:
     for k, w in enumerate(out):
         add_clip_vars(w, rng)
         w["via"] = vias[k % len(vias)]
+        if w["conv"] in ("cf1d", "cf2d", "shoc_simple") and "xb" in w.get("geom", {}) and k % 2 == 0:
+            w["bounds_as_coords"] = True      # bounds held as coordinate variables (set_coords / decode_coords="all")
     return out
 
 
